@@ -367,6 +367,12 @@ func (c *C13Case) runAPI() (res stat.Result) {
 	res.Sub = 2
 	ta, ea := wa.ask(c.SubProp, sub)
 	ts, es := ws.ask(c.SubProp, sub)
+	for _, e := range []error{ea, es} {
+		if _, ok := e.(errWorkerTimeout); ok {
+			res.Inconclusive = "C13 worker: " + e.Error()
+			return
+		}
+	}
 	if ea != nil || es != nil {
 		res.Err = fmt.Errorf("%s case: avx2 worker: %v; sse worker: %v", c.SubProp, ea, es)
 		return
